@@ -142,7 +142,7 @@ def scenario(w):
     opts = draw_options(ch)
     cfg = C.draw_poolcfg(w)
     nproc = 1 + ch.weighted('nprocesses', [3, 3, 2, 1])
-    nens = 2 + ch.pick('nensembles', 2)
+    nens = [2, 3, 6, 5][ch.pick('nensembles', 4)]        # 5 and 6 give multi-job chunks on one worker
     base, _, inner = vname.partition(':')
     second_layer = base in ('sift_second_layer', 'mask_sift_second_layer')
     if base == 'get_next_imf_mask' or second_layer:
@@ -156,13 +156,13 @@ def scenario(w):
         fixed = {'max_imfs': 2 + ch.pick('max_imfs', 2)}
     elif target == 'mask_sift':
         fixed = {'max_imfs': 2 + ch.pick('max_imfs', 2), 'nprocesses': nproc,
-                 'nphases': [4, 2, 3][ch.pick('nphases', 3)],
+                 'nphases': [4, 2, 3, 6][ch.pick('nphases', 4)],
                  'mask_freqs': ch.choice('mask_freqs', ['zc', 'if', 0.2])}
     elif target in ('ensemble_sift', 'complete_ensemble_sift'):
         fixed = {'max_imfs': 2, 'nprocesses': nproc, 'nensembles': nens,
                  'noise_mode': ch.choice('noise_mode', ['single', 'flip'])}
     elif target == 'get_next_imf_mask':
-        fixed = {'z': 0.2, 'amp': float(x.std()), 'nphases': [4, 2, 3][ch.pick('nphases', 3)], 'nprocesses': nproc}
+        fixed = {'z': 0.2, 'amp': float(x.std()), 'nphases': [4, 2, 3, 6][ch.pick('nphases', 4)], 'nprocesses': nproc}
     if base == 'mask_sift_second_layer':
         fixed.pop('mask_freqs', None)
     if second_layer:
